@@ -670,3 +670,19 @@ def reached_only_via(ctx, rid, f, e, pred, pol, what, construct):
               '%s — `%s` in %s' % (what, e.get('src', e.get('name', ''))[:70], f.name),
               witness=None if r is None else {'blocks': r[0]})
     return r is None
+
+
+def deep_resolve(f, d, depth=0):
+    """Substitute single-definition locals by their initialisers everywhere inside d."""
+    if depth > 5:
+        return d
+    if isinstance(d, list):
+        return [deep_resolve(f, x, depth) for x in d]
+    if not isinstance(d, dict):
+        return d
+    if d.get('k') == 'var' and d.get('vk') == 'local':
+        init = f.single_def(d['n'])
+        if init is not None:
+            return deep_resolve(f, unwrap_conv(init), depth + 1)
+        return d
+    return {k: (deep_resolve(f, v, depth) if isinstance(v, (dict, list)) else v) for k, v in d.items()}
